@@ -22,6 +22,7 @@ import (
 	"go4.org/jsonconfig"
 	"perkeep.org/pkg/blob"
 	"perkeep.org/pkg/blobserver"
+	"perkeep.org/pkg/blobserver/encrypt"
 	"perkeep.org/pkg/blobserver/memory"
 )
 
@@ -546,6 +547,107 @@ func newC11env(c *ctx, dir string, nplains int, tag string, rawStores bool) *c11
 	return e
 }
 
+// ---- the full-meta-blob boundary: a packed meta blob just below FullMetaBlobSize lines is already in the wrapped store
+// (written by the harness in the store's own format: a store that has seen ~10000 uploads would hold one); 100+ uploads
+// push the compaction over the boundary; then the meta index is wiped. Everything the meta blobs named before must be
+// named afterwards and be in the rebuilt index. ----
+func c11FullBoundary(c *ctx, dir string) {
+	for round, below := range []int{50, 3} {
+		e := newC11env(c, dir, 140, fmt.Sprintf("full%d", round), false)
+		log.SetOutput(e.logbuf)
+		// the big meta blob: fabricated entries (their ciphertexts are never asked for)
+		nbig := int(encrypt.FullMetaBlobSize) - below
+		var lines []string
+		big := map[string]bool{}
+		for i := 0; i < nbig; i++ {
+			pr := blob.RefFromString(fmt.Sprintf("fabricated plaintext %d %d %d", round, i, c.seed))
+			er := blob.RefFromString(fmt.Sprintf("fabricated ciphertext %d %d %d", round, i, c.seed))
+			lines = append(lines, fmt.Sprintf("%s/%d/%s", pr, 10+i%7, er))
+			big[pr.String()] = true
+		}
+		sort.Strings(lines)
+		var enc bytes.Buffer
+		enc.WriteByte(2)
+		w, err := age.Encrypt(&enc, e.id.Recipient())
+		must(err)
+		io.WriteString(w, "#camlistore/encmeta=2\n"+strings.Join(lines, "\n")+"\n")
+		must(w.Close())
+		if _, err := e.meta.ReceiveBlob(context.Background(), blob.RefFromBytes(enc.Bytes()), bytes.NewReader(enc.Bytes())); err != nil {
+			c.rep.Notes = append(c.rep.Notes, "full boundary: "+err.Error())
+			return
+		}
+		if err := e.open(); err != nil {
+			c.violation(-1, "c11-restart-failed", "start-up over a well-formed "+fmt.Sprint(nbig)+"-line meta blob failed: "+err.Error(), nil)
+			continue
+		}
+		where := fmt.Sprintf("a %d-line meta blob (FullMetaBlobSize %d) and 130 uploads", nbig, encrypt.FullMetaBlobSize)
+		check := func(when string, want map[string]bool) {
+			c.rep.SpecChecks++
+			e.settle()
+			// statically: named by the meta blobs
+			named := map[string]bool{}
+			e.meta.mu.Lock()
+			var datas [][]byte
+			for _, br := range e.meta.order {
+				datas = append(datas, e.meta.get(br))
+			}
+			e.meta.mu.Unlock()
+			for _, d := range datas {
+				if plain, ok := e.decrypt(d); ok {
+					for _, l := range strings.Split(strings.TrimSuffix(string(plain), "\n"), "\n")[1:] {
+						named[strings.SplitN(l, "/", 2)[0]] = true
+					}
+				}
+			}
+			missing := 0
+			for r := range want {
+				if !named[r] {
+					missing++
+				}
+			}
+			if missing > 0 {
+				c.violation(-1, "c11-not-recovered", fmt.Sprintf("%s, %s: %d of the %d blobs the meta blobs named are named by no meta blob any more", where, when, missing, len(want)), nil)
+				return
+			}
+			// dynamically: the index the store answers from
+			listed := map[string]bool{}
+			err := blobserver.EnumerateAll(context.Background(), e.sto, func(sb blob.SizedRef) error { listed[sb.Ref.String()] = true; return nil })
+			missing = 0
+			for r := range want {
+				if !listed[r] {
+					missing++
+				}
+			}
+			if err != nil || missing > 0 || len(listed) != len(want) {
+				c.violation(-1, "c11-not-recovered", fmt.Sprintf("%s, %s: the store lists %d blobs (err %v), %d of the %d known ones are missing", where, when, len(listed), err, missing, len(want)), nil)
+			}
+		}
+		want := map[string]bool{}
+		for r := range big {
+			want[r] = true
+		}
+		check("after the start-up", want)
+		for i := 0; i < 130; i++ {
+			if i == 3 {
+				continue // the empty blob is not part of this scenario
+			}
+			if err := e.receive(i + 1); err != nil {
+				c.violation(-1, "c11-receive-failed", where+": "+err.Error(), nil)
+				break
+			}
+			want[e.refs[i].String()] = true
+		}
+		check("after the uploads (compaction across the boundary)", want)
+		e.settle()
+		if err := e.open(); err != nil {
+			c.violation(-1, "c11-restart-failed", where+": restart with an empty meta index failed: "+err.Error(), nil)
+			continue
+		}
+		check("after a restart with an empty meta index", want)
+		c.count("scenarios", "full-meta-blob boundary")
+	}
+}
+
 func runC11(c *ctx) {
 	c.rep.Rule = "encrypt stores created by CreateStorage(\"encrypt\") over instrumented wrapped stores (memory.Storage, or a raw map store that accepts tampered bytes); histories of 150-450 receives (fresh, duplicate, the empty blob, 70 KB blobs) crossing the compaction threshold several times, injected failures of the small-meta removal and of single writes to either wrapped store (the receive fails, the client retries), restarts with a fresh meta index at random points; " +
 		"at checkpoints the wrapped stores are decrypted by the harness (its own age identity) and compared with the model, with the enumerated plaintext refs and the class of Fetch's answer; then tampering: for every data ciphertext (quick: a sample of positions; thorough: every byte) bit flips, truncations, extensions, swaps with another ciphertext -> Fetch exact-or-error; " +
@@ -556,6 +658,9 @@ func runC11(c *ctx) {
 	oldOut := log.Writer()
 	defer log.SetOutput(oldOut)
 
+	if ok, pan := withTimeout(300*time.Second, func() { c11FullBoundary(c, dir) }); !ok || pan != nil {
+		c.violation(-1, "c11-hang", fmt.Sprintf("the full-meta-blob boundary scenario: finished=%v panic=%v", ok, pan), nil)
+	}
 	for si := 0; si < c.n(3, 12); si++ {
 		si := si
 		ok, pan := withTimeout(time.Duration(c.n(120, 1500))*time.Second, func() { c11Scenario(c, dir, si) })
